@@ -3,6 +3,7 @@ package bytecode
 import (
 	"bytes"
 	"encoding/hex"
+	"runtime"
 	"strings"
 
 	"github.com/tencent/goom/internal/arch/x86asm"
@@ -135,6 +136,12 @@ func isRelativeAdd(ins x86asm.Inst) bool {
 	return isAdd
 }
 
+// isRaceHook reports whether pc is the entry of one of the race detector's runtime hooks
+func isRaceHook(pc uintptr) bool {
+	f := runtime.FuncForPC(pc)
+	return f != nil && f.Entry() == pc && strings.HasPrefix(f.Name(), "runtime.race")
+}
+
 // GetInnerFunc Get the first real func location from wrapper
 // not absolutely safe
 func GetInnerFunc(mode int, start uintptr) (uintptr, error) {
@@ -159,11 +166,16 @@ func GetInnerFunc(mode int, start uintptr) (uintptr, error) {
 
 		if inst.Op.String() == CallInsName {
 			relativeAddr := DecodeRelativeAddr(&inst, code, inst.PCRelOff)
+			var target uintptr
 			if relativeAddr >= 0 {
-				return start + uintptr(curLen) + uintptr(relativeAddr) + uintptr(inst.Len), nil
+				target = start + uintptr(curLen) + uintptr(relativeAddr) + uintptr(inst.Len)
+			} else if curLen+int(relativeAddr) < 0 {
+				target = start + uintptr(curLen) - uintptr(-relativeAddr) + uintptr(inst.Len)
 			}
-			if curLen+int(relativeAddr) < 0 {
-				return start + uintptr(curLen) - uintptr(-relativeAddr) + uintptr(inst.Len), nil
+			// in a race-instrumented binary the wrapper calls runtime.racefuncenter before the function it forwards
+			// to: that hook is not the inner function (diverting it would divert every instrumented function)
+			if target != 0 && !isRaceHook(target) {
+				return target, nil
 			}
 		}
 
